@@ -89,12 +89,13 @@ PROPS['C14'] = dict(
 )
 
 PROPS['C09'] = dict(
-    coq_targets=['Proofs/ZobristKeys.vo', 'Proofs/HashSeparation.vo'],
-    scope='all boards / all builder states paired with each single-component variant; key facts by complete sweeps of the translated Zobrist tables (768 + 8 + 16 + 1 keys)',
+    coq_targets=['Proofs/ZobristKeys.vo', 'Proofs/HashSeparation.vo', 'Proofs/ZobristSpan.vo'],
+    prop_files=['C09', 'C09b'],
+    scope='all boards / all builder states paired with each single-component variant; key facts by complete sweeps of the translated Zobrist tables (768 + 8 + 16 + 1 keys); GF(2) span / rank of the 768 piece keys, all 64-bit values',
     streams=lambda tier: [dict(stages=[H('zob', sz(tier, 25, 1500)), D('zob')], shards=16, min_stat={'zob_sib_side': 10, 'zob_sib_rights': 10, 'zob_sib_ep': 5, 'zob_sib_piece': 100})],
     tags=['hash_model', 'oracle_hash_.*', 'zob_line'] + COMMON_MODEL_TAGS,
     eval_stat='zob_siblings',
-    rule='every playout / set-up position paired with single-component variants built through the builder or a null move (side to move, either colour\'s rights, en-passant file, one piece on one square): hashes must differ; census of all (position, hash) pairs of the run for collisions (statistical clause: exploration only); distinct = distinct base positions',
+    rule='every playout / set-up position paired with single-component variants built through the builder or a null move (side to move, either colour\'s rights, en-passant file, one piece on one square): hashes must differ; census of all (position, hash) pairs of the run for collisions and for the width of the hash (distinct values of each 32-bit half and 16-bit quarter, balance of each bit, with chance-calibrated thresholds); distinct = distinct base positions',
     assumptions=['the clause "no more collisions than chance among millions of positions" is statistical: measured by the census, not a theorem'],
 )
 
@@ -135,7 +136,7 @@ PROPS['C03'] = dict(
     prop_files=['C03', 'C03b'],
     scope='see theorem list',
     streams=lambda tier: [pos_stream(tier, 14, 900, 'succ')],
-    tags=['obs_.*', 'oracle_checkers', 'oracle_pinned', 'reparse', 'succfs_.*', 'succ_ch', 'succ_pin', 'null_.*', 'nullfs_.*', 'impl_sane'] + COMMON_MODEL_TAGS,
+    tags=['obs_.*', 'oracle_checkers', 'oracle_pinned', 'reparse', 'succfs_.*', 'succ_ch', 'succ_pin', 'succ_flags', 'null_.*', 'nullfs_.*', 'impl_sane'] + COMMON_MODEL_TAGS,
     rule=POS_RULE,
 )
 # C04: the thorough tier enumerates every K+X v K placement (X any piece of either colour, either
@@ -251,3 +252,10 @@ PROPS['C12'] = dict(
     eval_stat='san_texts',
     rule='for every legal move of every PosValid playout position all admissible spellings of Spec/Text.v (piece letter, every correct disambiguation, x on captures incl. en passant, promotion letter, truthful + / #, optional " e.p.", O-O / O-O-O) are parsed by the library; plus under-disambiguated and wrong-capture-flag texts, mutated and random strings incl. non-ASCII; distinct = distinct positions',
 )
+
+# Extended model (Model/Extra.v): API next to the properties; drift is a NOTE, never a violation.
+PROPS['C13']['ext'] = dict(files=['X13'], targets=['Proofs/Extra13.vo'], tags=['extra_cmp.*', 'extra_file.*', 'extra_rank.*', 'oracle_extra_cmp', 'oracle_extra_panic', 'extra_line'])
+PROPS['C20']['ext'] = dict(files=['X20'], targets=['Proofs/Extra20.vo'], tags=['extra_bbdisplay.*'])
+PROPS['C10']['ext'] = dict(files=['X10'], targets=['Proofs/Extra10.vo'], tags=['extra_default.*', 'oracle_extra_default'])
+PROPS['C03']['ext'] = dict(files=['X03'], targets=['Proofs/Extra03.vo'], tags=['extra_edit.*'])
+PROPS['C01']['ext'] = dict(files=['X01'], targets=['Proofs/PerftSpec.vo', 'Proofs/PerftExamples.vo', 'Proofs/PerftBuilder.vo', 'Proofs/PerftGame.vo'], stream='extra2', size=(12, 400), shards=8, tags=['extra2_.*', 'oracle_extra2_.*', 'extra_line'])
